@@ -149,7 +149,24 @@ func runIngest(targets []string, io IOpts, ops []Op) ([]Op, []IObs) {
 		}
 		opts = append(opts, lw)
 	}
-	c := cache.New(targets, opts...)
+	var c *cache.Cache
+	if res, what := guard(func() { c = cache.New(targets, opts...) }); res != "ok" {
+		// the constructor itself failed: every step of the case is that failure
+		var seen []Op
+		var obs []IObs
+		for _, op := range ops {
+			if op.K == "refresh" {
+				seen = append(seen, Op{K: "refresh"})
+				obs = append(obs, IObs{Refresh: true, Res: res, Panic: what})
+			} else if op.K == "msg" && op.N != nil {
+				m := &pb.Notification{}
+				wire(notiPB(op.N), m)
+				seen = append(seen, Op{K: "msg", N: notiAbs(m)})
+				obs = append(obs, IObs{Res: res, Panic: "cache.New: " + what, Dump: map[string][]DLeaf{}})
+			}
+		}
+		return seen, obs
+	}
 	// every accepted update is also handed to a subscribe server (Server.Update
 	// indexes the notification's paths to find subscribers), as in the collector
 	if srv, err := subscribe.NewServer(c); err == nil {
